@@ -24,8 +24,8 @@ def handle : List String → Option String
     let ql := if qkind == "f" then qs.map fileLabel else qs
     let rl := if rkind == "f" then rs.map fileLabel else rs
     let expected := distCsv ql rl (table.map (fun row => row.map UInt32.ofNat))
-    if expected == real then pure "ok" else
-    pure s!"FAIL expected csv {String.ofList expected |>.quote} got {String.ofList real |>.quote}"
+    if expected != real then pure s!"FAIL expected csv {String.ofList expected |>.quote} got {String.ofList real |>.quote}" else
+    pure ((PyGen.dmatCsv ql rl (table.map (fun row => row.map UInt32.ofNat)) real).getD "ok")
   | ["c16.label", path, real] => do
     let path ← strOfHex path
     let real ← strOfHex real
